@@ -350,7 +350,8 @@ Fixpoint run_ops (fuel : nat) (st : rst) (ts : list str) (acc : list str) : list
             end
           else if chr 63 op then (* ? flags : fault modes, in force while a counted fault is armed:
                                      1 every deletion fails, 2 the next directory listing fails,
-                                     4 a creation hit by the counted fault leaves the empty file *)
+                                     4 a creation hit by the counted fault leaves the empty file,
+                                     8 a metadata commit / stable write hit by it fails and lands *)
             match r with
             | k :: r1 =>
                 match hex_to_N k with
